@@ -14,7 +14,7 @@ import (
 
 // ---------------------------------------------------------------- r2.Rect
 
-func r2Term(r r2.Rect) string   { return vkit.App("mk_r2_Rect", r1Term(r.X), r1Term(r.Y)) }
+func r2Term(r r2.Rect) string    { return vkit.App("mk_r2_Rect", r1Term(r.X), r1Term(r.Y)) }
 func r2PtTerm(p r2.Point) string { return vkit.App("mk_r2_Point", vkit.F(p.X), vkit.F(p.Y)) }
 func r2Key(r r2.Rect) string {
 	return fmt.Sprintf("%x/%x/%x/%x", math.Float64bits(r.X.Lo), math.Float64bits(r.X.Hi), math.Float64bits(r.Y.Lo), math.Float64bits(r.Y.Hi))
@@ -22,8 +22,8 @@ func r2Key(r r2.Rect) string {
 
 // independent oracles
 func r2Mem(r r2.Rect, p r2.Point) bool { return r1Mem(r.X, p.X) && r1Mem(r.Y, p.Y) }
-func r1Empty(i r1.Interval) bool        { return i.Lo > i.Hi }
-func r2ValidO(r r2.Rect) bool           { return r1Empty(r.X) == r1Empty(r.Y) }
+func r1Empty(i r1.Interval) bool       { return i.Lo > i.Hi }
+func r2ValidO(r r2.Rect) bool          { return r1Empty(r.X) == r1Empty(r.Y) }
 
 func runC19r2(c *vkit.Collector, rng *vkit.Rng, budget int) {
 	lat := []float64{0, math.Copysign(0, -1), 1, -1, 0.5, 2, vkit.Ulps(1, 1), vkit.Ulps(1, -1), math.Inf(1), math.Inf(-1), 1e300, -1e300, rng.Range(-3, 3), rng.Range(-3, 3)}
@@ -88,6 +88,9 @@ func runC19r2(c *vkit.Collector, rng *vkit.Rng, budget int) {
 				}
 				p := r2.Point{X: px, Y: py}
 				ma, mb := r2Mem(a, p), r2Mem(b, p)
+				if r2ValidO(a) && r2ValidO(b) && ((r1Empty(b.X) && r2Mem(u, p) != ma) || (r1Empty(a.X) && r2Mem(u, p) != mb)) {
+					c.Violate("r2.Union.empty-operand", "union with an empty rectangle is not the other operand", rep(p))
+				}
 				if (ma || mb) && !r2Mem(u, p) {
 					c.Violate("r2.Union", "union misses a point of an operand", rep(p))
 				}
@@ -257,6 +260,9 @@ func runC19s2rect(c *vkit.Collector, rng *vkit.Rng, budget int) {
 				}
 				ma, mb := s2RectMem(a, la, lg), s2RectMem(b, la, lg)
 				ll := s2.LatLng{Lat: s1.Angle(la), Lng: s1.Angle(lg)}
+				if (r1Empty(b.Lat) && s2RectMem(u, la, lg) != ma) || (r1Empty(a.Lat) && s2RectMem(u, la, lg) != mb) {
+					c.Violate("s2rect.Union.empty-operand", "union with an empty rectangle is not the other operand", rep(la, lg))
+				}
 				if (ma || mb) && !s2RectMem(u, la, lg) {
 					c.Violate("s2rect.Union", "union misses a point of an operand", rep(la, lg))
 				}
